@@ -19,6 +19,7 @@ package main
 import (
 	"encoding/json"
 	"fmt"
+	"reflect"
 	"strings"
 	"sync"
 	"sync/atomic"
@@ -45,6 +46,10 @@ func part3Jobs(run *vk.Run, race bool) []func() {
 				jobs = append(jobs, func() { concurrentChain(run, tr, nmw, 30+10*rep) })
 			}
 		}
+	}
+	for _, tr := range []string{"websocket", "polling"} {
+		tr := tr
+		jobs = append(jobs, func() { ackMismatch(run, tr) })
 	}
 	for _, useMW := range []bool{false, true} {
 		for _, auth := range []string{"none", "bogus-pid", "bogus-pid-offset", "empty-pid-offset"} {
@@ -208,6 +213,116 @@ func concurrentChain(run *vk.Run, transport string, nmw, n int) {
 		run.Inconclusive(fmt.Sprintf("part3a %s: not every event left the chain within 20 s", transport))
 	}
 	run.Distinct(fmt.Sprintf("3a/%s/mw=%d/overlap=%v", transport, nmw, overlaps > 0))
+}
+
+// ackMismatch — part 3c: whether the CLIENT asked for an acknowledgement and whether the HANDLER takes an
+// ack function are independent. In all four combinations the event middleware must be handed the event's
+// real arguments, all of them (a trailing function value is ignored, as in part 2).
+func ackMismatch(run *vk.Run, transport string) {
+	run.Eval(1)
+	srv, err := rig.NewServer(nil, "")
+	if err != nil {
+		run.Inconclusive("part3c: " + err.Error())
+		return
+	}
+	defer srv.Close()
+	type rec struct {
+		name string
+		args []any
+	}
+	var mu sync.Mutex
+	var seen []rec
+	handled := map[string]int{}
+	srv.IO.Of("/").OnConnection(func(s sio.ServerSocket) {
+		s.Use(func(name string, v ...any) error {
+			var real []any
+			for _, x := range v {
+				if x != nil && reflect.TypeOf(x).Kind() == reflect.Func {
+					continue
+				}
+				real = append(real, x)
+			}
+			mu.Lock()
+			seen = append(seen, rec{name, real})
+			mu.Unlock()
+			return nil
+		})
+		s.OnEvent("two", func(a int, b bool) { mu.Lock(); handled["two"]++; mu.Unlock() })
+		s.OnEvent("pay", func(to string, amount int) { mu.Lock(); handled["pay"]++; mu.Unlock() })
+		s.OnEvent("ask", func(q string, ack func(string)) { mu.Lock(); handled["ask"]++; mu.Unlock(); ack("re:" + q) })
+		s.OnEvent("fence", func(ack func()) { ack() })
+	})
+	peer, err := rawpeer.DialSIO(srv.URL, transport)
+	if err != nil {
+		run.Inconclusive("part3c: dial: " + err.Error())
+		return
+	}
+	defer peer.C.Abort()
+	if res, err := peer.Connect("/", nil, 20*time.Second); err != nil || !res.OK {
+		run.Inconclusive("part3c: connect failed")
+		return
+	}
+	type em struct {
+		name    string
+		withAck bool
+		args    []any
+		want    []any
+	}
+	ems := []em{
+		{"two", false, []any{json.Number("7"), true}, []any{7, true}},
+		{"two", true, []any{json.Number("7"), true}, []any{7, true}},
+		{"pay", false, []any{"mallory", json.Number("-1000000")}, []any{"mallory", -1000000}},
+		{"pay", true, []any{"mallory", json.Number("-1000000")}, []any{"mallory", -1000000}},
+		{"ask", true, []any{"why"}, []any{"why"}},
+		{"ask", false, []any{"why"}, []any{"why"}},
+	}
+	id := uint64(100)
+	for _, e := range ems {
+		var pid *uint64
+		if e.withAck {
+			id++
+			v := id
+			pid = &v
+		}
+		peer.Emit("/", pid, e.name, e.args...)
+	}
+	fid := uint64(999)
+	peer.Emit("/", &fid, "fence")
+	if _, _, err := peer.WaitPacket(0, 20*time.Second, func(p *refcodec.Packet) bool { return p.Type == refcodec.Ack && p.ID != nil && *p.ID == fid }); err != nil {
+		run.Inconclusive("part3c " + transport + ": fence not acknowledged")
+		return
+	}
+	vk.WaitUntil(5*time.Second, func() bool { mu.Lock(); defer mu.Unlock(); return len(seen) >= len(ems) })
+	mu.Lock()
+	got := append([]rec(nil), seen...)
+	mu.Unlock()
+	// both emissions of a name carry the same arguments, so the verdict needs no order: every record of a
+	// name must show that name's arguments, and there must be two records per name
+	want := map[string][]any{}
+	for _, e := range ems {
+		want[e.name] = e.want
+	}
+	count := map[string]int{}
+	for _, r := range got {
+		w, ok := want[r.name]
+		if !ok {
+			continue
+		}
+		count[r.name]++
+		if fmt.Sprint(r.args) != fmt.Sprint(w) {
+			run.Violation(vk.Violation{Sub: "event-middleware-wrong-arguments", Fields: map[string]any{"part": "3c", "handler": r.name},
+				What:    fmt.Sprintf("event %q emitted with arguments %v (once with, once without an ack request): the middleware was handed %v [%s]", r.name, w, r.args, transport),
+				Witness: map[string]any{"emitted": fmt.Sprint(w), "middleware_saw": fmt.Sprint(r.args), "transport": transport, "all_records": fmt.Sprint(got)}})
+		}
+	}
+	for name := range want {
+		if count[name] != 2 {
+			run.Violation(vk.Violation{Sub: "event-middleware-not-called", Fields: map[string]any{"part": "3c", "handler": name},
+				What:    fmt.Sprintf("event %q was emitted twice (with and without an ack request), the middleware was called %d times for it [%s]", name, count[name], transport),
+				Witness: map[string]any{"all_records": fmt.Sprint(got)}})
+		}
+	}
+	run.Distinct("3c/" + transport)
 }
 
 func asInt(v any) (int, bool) {
